@@ -450,6 +450,15 @@ func Run(o *drv.Out) {
 		}
 		w.close()
 	}
+	nCap := 2
+	if o.Tier == "thorough" {
+		nCap = 12
+	}
+	for i := 0; i < nCap; i++ {
+		w := newWorld(o, fmt.Sprintf("capped-%d", i))
+		w.cappedCase(12)
+		w.close()
+	}
 	for i := 0; i < nFuzz; i++ {
 		w := newWorld(o, fmt.Sprintf("fuzz-%d", i))
 		w.fuzzCase(lenFuzz)
